@@ -2,6 +2,7 @@
 From RJ Require Import Base.Prelude Base.OrderedPlan Model.Settings Model.Core Model.Fs Model.Paths Model.Sync
   Spec.PlanSpec Spec.Mirror Proofs.FsProofs Proofs.ExecProofs Proofs.PathsProofs Proofs.ConfineProofs Proofs.MirrorProofs
   Proofs.QuietProofs Proofs.ConfinedMain Proofs.ConfineAll.
+From RJ Require Model.Walker Proofs.WalkBridge Proofs.WalkedSync.
 
 (* A symlink is a leaf of every listing: nothing below a symlink is visible, whatever it points at. *)
 Theorem C12_leaf : forall incl f p q t k,
@@ -62,7 +63,17 @@ Theorem C12_never_through_in_any_run : forall now_z incl normalize chunker cfg S
   no_through (d_events (r_dest (sync_one now_z normalize chunker cfg S D ans bits ls ld ft))).
 Proof. exact no_run_goes_through_a_link. Qed.
 
+(* ... and with the listing premises discharged by the directory walk (C17, Proofs/WalkBridge.v): given on each
+   side whatever any execution of the N-worker walk over that side's tree delivers, NO run resolves a path
+   through a destination symlink. *)
+Theorem C12_walked_never_through : forall now_z incl normalize chunker cfg S D ans bits ls ld ft,
+  wf_fs S -> wf_fs (d_fs D) -> no_through (d_events D) ->
+  WalkedSync.walked now_z incl normalize S ls -> WalkedSync.walked now_z incl normalize (d_fs D) ld ->
+  no_through (d_events (r_dest (sync_one now_z normalize chunker cfg S D ans bits ls ld ft))).
+Proof. exact WalkedSync.walked_sync_never_through. Qed.
+
 Print Assumptions C12_leaf.
 Print Assumptions C12_never_through_in_any_run.
 Print Assumptions C12_recreate_iff.
 Print Assumptions C12_never_through.
+Print Assumptions C12_walked_never_through.
